@@ -223,6 +223,25 @@ def handleC02 (op : String) (input impl : Json) : Except String Json := do
       | .ok b => b == raw
       | _ => false
     return reply (jRes jBytes mb) agree viol
+  | "ids-spill-write-fault" =>
+    -- the same CSV ingested in memory (base), with spills (control) and with spills while no spill
+    -- file can grow beyond a size limit, so that a write of every spill file fails (limited): an ingest
+    -- gives the table the identifier of its content or fails; it never hands back another identifier
+    if resClass impl != "ok" then
+      return reply Json.null false [if resClass impl == "panic" then "no-panic" else "unexpected-error"]
+    let v := fldD impl "val" Json.null
+    let base ← strFld v "base"
+    let control ← strFld v "control"
+    let lim ← fld v "limited"
+    let limViol :=
+      if resClass lim == "ok" then
+        (if (fldD (fldD lim "val" Json.null) "sum" Json.null).getStr?.toOption == some base then []
+         else ["failed-spill-write:same-id-or-error"])
+      else if resClass lim == "panic" then ["no-panic"]
+      else if (fldD lim "kind" Json.null).getStr?.toOption == some "ingest" then []
+      else ["unexpected-error"]
+    let viol := (if control == base then [] else ["same-content-same-id"]) ++ limViol
+    return reply (Json.mkObj [("limited", Json.str "error-or-base-id")]) viol.isEmpty viol
   | "cli-ids" =>
     -- the identifier as the commit command sees it, over a history of `wrgl commit main MSG` from the
     -- branch's configured file and key. Per step the harness reports what the command said, the head
